@@ -31,12 +31,17 @@ INFO = dict(
               "determinant constraint from the SVD contract, exact recovery from optimality + full rank, barycentric "
               "algebra for piecewise-affine maps, block-system algebra for thin-plate splines incl. exact recovery of "
               "affine maps, invariant by induction over the generalized-Procrustes iteration) + source-to-Lean "
-              "translation of the alignment code on every run (harness/trans_c07.py over harness/py2lean2.py: 48 "
-              "functions of the working tree, each proved equal to the Core definition for all arguments) + "
+              "translation of the alignment code on every run (harness/trans_c07.py over harness/py2lean2.py: 54 "
+              "definitions of the working tree, proved equal to the Core definition for all arguments - genPwaInit through "
+              "genPythonPwaInit_eq) + "
               "model/implementation correspondence on generated alignments",
     level_text="Theorems over an executable model of the alignment constructors (exact rational arithmetic, matrices "
-               "generic in the number of points and in the dimension): translation and affine alignments minimise the "
-               "squared error over their whole family; the rotation alignment is optimal among all orthogonal maps "
+               "generic in the number of points and in the dimension).  READ WITH partial[0]: every clause below that "
+               "involves a norm or an SVD (scale, rotation, similarity size / rotation, TPS as coded, GPA size / rotation) is "
+               "proved GIVEN an exact rational answer of np.linalg.norm / np.linalg.svd, which exists only for inputs whose "
+               "square roots / singular vectors are rational; for all other inputs these clauses rest on the per-case "
+               "numerical contract check and the independent oracle.  Translation and affine alignments minimise the "
+               "squared error over their whole family (unconditionally); the rotation alignment is optimal among all orthogonal maps "
                "when mirroring is allowed (every dimension) and among proper rotations otherwise (2-D and 3-D, the "
                "determinant-corrected Kabsch solution) and never has determinant -1 unless mirroring is allowed; scale "
                "and similarity alignments reproduce size (and centroid) exactly, are the only members of their family "
@@ -45,7 +50,8 @@ INFO = dict(
                "finite answer exactly for zero-size sources and collapse onto a zero-size target; thin-plate splines "
                "as coded (truncated-SVD inverse on a symmetric system): exact interpolation when no singular value is "
                "dropped, otherwise the miss is exactly the dropped component of the data; affine maps are recovered "
-               "exactly (zero bending part); piecewise-affine maps on a triangulation that passes the executable "
+               "exactly (zero bending part) both by the exact checked solve (tps_affine_*) and by the coded path when nothing "
+               "is dropped and the system is invertible (tps_svd_affine_recovery, src_tps_affine_recovery); piecewise-affine maps on a triangulation that passes the executable "
                "conformity certificate (evaluated in Lean on the triangle list of every generated alignment): "
                "single-valued (continuous across edges and vertices), interpolating, affine on every closed triangle, "
                "recovering affine maps; generalized Procrustes "
@@ -83,13 +89,25 @@ INFO = dict(
                "into a Lean table with decide obligations on every run; an "
                "independent oracle decides the property on the real code.",
     level_note="Trusted: Lean kernel; axioms propext/Classical.choice/Quot.sound; the Python harness and the driver's "
-               "parser.  Contract parameters (checked numerically on every case, not proved): np.linalg.svd returns "
+               "parser; the translator harness/py2lean2.py, the rule tables and translator subclass of harness/trans_c07.py, the "
+               "operator vocabulary Core/C07Src.lean: Np, the hand-written fuel knot genGpaRec (GenProps/C07SrcGpa.lean) that "
+               "unrolls the translated recursive call.  Words of the translation vocabulary whose BODIES are not translated "
+               "(anchored files): Affine._set_h_matrix (plainSetH: validity guards + store), Rotation.set_rotation_matrix "
+               "(guards + h[:-1,:-1] = value), UniformScale.__init__ / UniformScale(..) / Translation(..) / Rotation(..) as "
+               "expressions in procrustes_alignment, compose_before_inplace (matrix product), Translation.pseudoinverse, "
+               "Homogeneous._apply (applyH), scale_about_centre, CachedPWA.index_alpha_beta (the cache layer of the public "
+               "PiecewiseAffine: tied by sampling only; PythonPWA.index_alpha_beta is translated); translated since the audit: "
+               "Homogeneous / Affine / Similarity / Translation / Rotation.__init__.  The translation is VALUE-LEVEL: it does "
+               "not see .copy(), copy= flags, in-place versus rebinding, or object identity, so no aliasing / non-mutation "
+               "fact follows from the translated obligations (C07's text has no such clause; storage dtypes after a history "
+               "are covered by the measured table dtype_rows_ok).  Contract parameters (checked numerically on every case, not proved): np.linalg.svd returns "
                "orthogonal factors with non-negative, descending singular values; np.linalg.norm/sqrt returns the "
                "non-negative root; RBF kernel values (arbitrary in the theorem); scipy Delaunay returns a conforming "
                "triangulation.  For generalized Procrustes the answers of norm/svd in every pass are supplied by an "
                "independent numpy transcription of the iteration (gpa_replica) and the model re-runs the iteration "
-               "exactly on them.  np.linalg.solve and the TPS pseudo-inverse are NOT assumed: the model's solve is "
-               "checked in Lean (solveChecked_spec).  Float rounding is not modelled (exact arithmetic, 1e-9 "
+               "exactly on them.  np.linalg.solve is NOT assumed: the model's solve is checked in Lean "
+               "(solveChecked_spec; affine and exact-TPS theorems); the theorems about the TPS AS CODED (tps_svd_*, src_tps_*) "
+               "do assume the svd contract of the (n+3)x(n+3) system.  Float rounding is not modelled (exact arithmetic, 1e-9 "
                "relative comparison, 1e-4 for float32 point arrays, conditioning bounded on the input).",
     rule="classes x {2-D, 3-D where supported} x 3..12 points; targets = family member(source) (exact recovery), "
          "member + dyadic noise at 4 levels, or arbitrary; small dyadic coordinates; sources/targets given as any of the "
@@ -105,7 +123,28 @@ INFO = dict(
          "a GPA convergence test within 0.1% of its threshold) rejected on the input; zero-size sources/targets are "
          "generated but only recorded (counted as trivial).  distinct = distinct (class, options, source, target); "
          "non-trivial = target differs from source and the source spans the space",
-    partial=["uniform-scale family members used for exact recovery are the positive scales (a negative factor is a "
+    partial=["EXACT-RATIONAL CONTRACTS (audit F1): the model is over Q and np.linalg.norm / np.linalg.svd are modelled as rational "
+             "answers with an exact contract (r*r = norm2; U diag(D) Vt = M with U, Vt orthogonal).  For a generic rational "
+             "point set the square root and the singular vectors are irrational, so NO rational witness exists and the "
+             "theorems that take such a contract as hypothesis say nothing about that input (theorem contract_unsatisfiable: "
+             "an ordinary 2-point target with norm2 = 2).  This concerns every scale / rotation / similarity / TPS-as-coded / "
+             "GPA size-, optimality-, no-reflection- and interpolation theorem (scale_*, rotation_*, similarity_reproduces_size, "
+             "similarity_uses_ls_rotation_*, tps_svd_*, gpa_* except the centroid ones, and their src_* forms); competitors Q "
+             "are rational orthogonal matrices only.  They are proved on the inputs whose norm / SVD are rational (the rotx "
+             "generator builds such data; the examples are Pythagorean) and are otherwise carried by the numerical check of "
+             "the contract per case plus the independent oracle.  Unconditional (no contract): translation and affine "
+             "optimality / recovery, the similarity and GPA centroid clause, piecewise-affine, exact-solve TPS, aligned "
+             "source / alignment error plumbing, every translated = Core equality and the retarget histories.  Generalising "
+             "Mat / SvdOK / FrobAt to an ordered field with K = R (Real.sqrt as witness) was not done",
+             "similarity_reproduces_centroid / gpa_reproduces_centroid carry no rS != 0 hypothesis: for a zero-size source the "
+             "model's scale is rT/0 = 0 and the statement holds while the code returns NaN / raises (recorded as "
+             "degenerate_inputs); simFitE_reproduces_centroid and src_similarity_reproduces_centroid state the clause with "
+             "the zero-size source excluded.  The model's det is the determinant for d <= 3 only (0 for d >= 4): the "
+             "translated-equals-Core equality of optimal_rotation_matrix is about that word, so for d >= 4 without mirroring "
+             "the model is not a model of the code (menpo's affine family is 2-D/3-D; no theorem is claimed there).  "
+             "PwaObj.ops.apply sends a vertex outside every triangle to the origin (only genAlignedSource of a PWA object "
+             "could see it; the theorems use pwaApply)",
+             "uniform-scale family members used for exact recovery are the positive scales (a negative factor is a "
              "scale composed with a point reflection; the norm-ratio fit cannot and does not claim to return it)",
              "'scale and similarity alignments reproduce the target's centroid and overall size' is read "
              "distributively: the one-parameter scale family reproduces size, the similarity centroid and size",
@@ -145,17 +184,19 @@ INFO = dict(
              "not judged",
              "no-mirror rotation theorems are stated for 2-D and 3-D (the dimensions menpo's affine family supports); "
              "the mirror-allowed, translation, affine, scale, similarity-centroid/size theorems are dimension-generic"],
-    assumptions=["np.linalg.svd contract (orthogonal U, Vt; D >= 0 descending; U diag(D) Vt = M), verified to 1e-9 "
-                 "against the exact correlation matrix on every rotation/similarity case and on the last pass of every "
-                 "GPA case",
+    assumptions=["np.linalg.svd contract (orthogonal U, Vt; D >= 0 descending; U diag(D) Vt = M) as an EXACT RATIONAL "
+                 "hypothesis of the theorems (satisfiable only for inputs with a rational SVD, see partial[0]); numerically "
+                 "verified to 1e-9 against the exact correlation matrix on every rotation/similarity case and against the "
+                 "(n+3)x(n+3) system on every TPS case; on the last pass of every GPA case only orthogonality of U, Vt and "
+                 "the two norms are verified (the replica does not keep D)",
                  "np.linalg.norm returns the non-negative square root (verified against the exact squared norm)",
                  "source point sets are non-degenerate (full rank for the affine fit, positive size, distinct "
                  "landmarks for TPS/PWA), as the property's quantifier says"],
     design_ref="DESIGN.md section 6, C07; section 7 #22")
 SRC_MODULES = ["MenpoModel.GenProps.C07Src", "MenpoModel.GenProps.C07SrcPwa", "MenpoModel.GenProps.C07SrcTps",
                "MenpoModel.GenProps.C07SrcGpa", "MenpoModel.GenProps.C07SrcProps"]
-IMPORTS = ["MenpoModel.Props.C07", "MenpoModel.GenProps.C07"] + SRC_MODULES
-TARGETS = ["MenpoModel.Props.C07", "MenpoModel.Drive.C07", "MenpoModel.GenProps.C07"] + SRC_MODULES
+IMPORTS = ["MenpoModel.Props.C07", "MenpoModel.Props.C07Limits", "MenpoModel.GenProps.C07"] + SRC_MODULES
+TARGETS = ["MenpoModel.Props.C07", "MenpoModel.Props.C07Limits", "MenpoModel.Drive.C07", "MenpoModel.GenProps.C07"] + SRC_MODULES
 _T = "MenpoModel.C07."
 THEOREMS = [_T + t for t in [
     "translation_ls_optimal", "translation_ls_excess", "translation_recovery",
@@ -172,7 +213,7 @@ THEOREMS = [_T + t for t in [
     "tps_interpolates",
     "alpha_beta_correct", "alpha_beta_reconstruct", "triMap_affine", "triMap_vertex", "pwa_edge_continuity",
     "pwaApply_some", "pwa_interpolates", "pwa_affine_in_triangle", "pwa_on_edge",
-    "aligned_source_def", "alignment_error_def", "alignment_error_resync_zero", "alignment_error_resync_refuted",
+    "alignment_error_resync_zero", "alignment_error_resync_refuted",
     "ofArr_toArr",
     # extension (Props/C07.lean): degenerate sizes, TPS recovers affine maps, generalized Procrustes
     "norm2_eq_zero_iff", "fitScaleE_none_iff", "fitScaleE_some", "simFitE_none_iff", "simFitE_some",
@@ -190,6 +231,8 @@ THEOREMS = [_T + t for t in [
     "gpa_reported_target_none", "gpa_reported_target_some",
     "gpa_converged_spec", "gpa_not_converged_spec", "gpa_nIter_le",
     "scaleAboutCentre_centroid", "scaleAboutCentre_norm2", "gpaNewTarget_centroid", "gpaNewTarget_size",
+    # Props/C07Limits.lean: what the exact-rational contracts do not cover; centroid clause with the zero-size source excluded
+    "contract_unsatisfiable", "simFitE_reproduces_centroid",
 ]] + ["MenpoModel.GenProps.C07.entries_wf", "MenpoModel.GenProps.C07.gpa_live_ok", "MenpoModel.GenProps.C07.dtype_rows_ok"]
 # translated source = Core model (GenProps/C07Src*.lean over Generated/C07Src.lean, rewritten from the source text on every run)
 SRC_THEOREMS = ["MenpoModel.GenProps.C07Src." + t for t in [
@@ -203,15 +246,16 @@ SRC_THEOREMS = ["MenpoModel.GenProps.C07Src." + t for t in [
     "rotation_retarget", "rotation_retargets",
     "genProcrustesAlignment_eq", "genSimilarityInit_eq", "genSimilaritySync_eq", "similarity_retarget", "similarity_retargets",
     "retargets_last",
-    "genHomogCopy_eq", "genHomogPinv_eq", "affine_pinv_retarget", "similarity_pinv_retarget", "rotation_pinv_retarget",
+    "genHomogPinv_eq", "affine_pinv_retarget", "similarity_pinv_retarget", "rotation_pinv_retarget",
     "translation_pinv_retarget", "scale_pinv_retarget", "genPwaPinv_eq", "genTpsPinv_eq",
     "genAlphaBeta_eq", "genContainment_eq", "genIndexAlphaBeta_eq", "pwaTri_eq_idx", "genBarycentricVectors_eq",
     "genPwaTrilist_eq", "genPwaRebuildTargetVectors_eq", "genPwaSync_eq", "genPythonPwaInit_eq", "pwa_retarget",
     "genPythonPwaIndexAlphaBeta_eq", "genPwaApply_eq",
     "blocks_eq_tpsL", "rhs_eq_tpsY", "truncated_inverse", "genTpsBuildCoefficients_eq", "genTpsSync_eq", "genTpsInit_eq",
-    "tps_retarget", "genTpsApply_eq",
+    "tps_retarget", "genTpsApply_eq", "tps_svd_solves", "tps_svd_affine_recovery", "src_tps_affine_recovery",
+    "genSimilarityCtor_eq", "genAffineCtor_eq", "genTranslationCtor_eq", "genRotationCtor_eq", "setTransCol_one",
     # the property stated for the translated code itself (GenProps/C07SrcProps.lean), every history of set_target calls
-    "src_aligned_source", "src_alignment_error",
+    "src_alignment_error",
     "src_translation_ls_optimal", "src_translation_recovery", "src_scale_reproduces_size", "src_scale_recovery",
     "src_affine_ls_optimal", "src_affine_retarget_ls_optimal", "src_affine_recovery",
     "src_rotation_ls_optimal_mirror", "src_rotation_ls_optimal_2d", "src_rotation_ls_optimal_3d",
@@ -1034,11 +1078,15 @@ def rp(case, **kw):
     return r
 
 
+LIFE = {"last": None}      # which life the last `build` really gave the object (counted after the build succeeded)
+
+
 def build(case):
     """the alignment under test.  case["life"] == "retargeted": the object was not born from the constructor call
     Cls(S, T) but had a previous life - it is the pseudoinverse() of the reverse alignment (or, where that does not
     exist, an alignment to another target) and was then brought to T with set_target; property C08 makes it the same
     alignment, so every C07 clause must hold for it as for a fresh one."""
+    LIFE["last"] = None
     a, S, T = _build_fresh(case)
     if case.get("life") == "retyped":
         # previous life on a first target held in ANOTHER STORAGE DTYPE (whole-pixel int64 / float32 / float64
@@ -1047,6 +1095,7 @@ def build(case):
         f = case["first"]
         b = _build_fresh(dict(case, T=f["T"], dtype_t=f["dtype"], life=None))[0]
         b.set_target(T)
+        LIFE["last"] = "retyped"
         return b, (b.source if case["cls"] == "pwa" else S), T
     if case.get("life") != "retargeted":
         return a, S, T
@@ -1056,17 +1105,23 @@ def build(case):
         other = np.array(case["T"], dtype=float)[::-1] * 0.5 + np.array(case["S"], dtype=float) * 0.5 + 1.0
         b = _build_fresh(dict(case, T=other.tolist(), life=None))[0]
         b.set_target(T)
+        LIFE["last"] = "retargeted"
         return b, b.source, T
+    other = PointCloud(np.array(case["S"], dtype=float)[::-1] * 1.5 + 1.0)
+    rev = dict(case, S=other.points.tolist(), T=case["S"], life=None)
     try:
-        other = PointCloud(np.array(case["S"], dtype=float)[::-1] * 1.5 + 1.0)
-        rev = dict(case, S=other.points.tolist(), T=case["S"], life=None)
-        b = _build_fresh(rev)[0].pseudoinverse()          # an alignment S -> other
-        if not np.array_equal(b.source.points, S.points):
-            return a, S, T
-        b.set_target(T)
-        return b, S, T
-    except Exception:      # noqa: BLE001 - a singular reverse alignment: keep the constructor-born object
+        r = _build_fresh(rev)[0]                          # an alignment other -> S
+    except Exception:      # noqa: BLE001 - the REVERSE fit does not exist (singular): keep the constructor-born object
+        LIFE["last"] = "fresh (reverse alignment could not be built)"
         return a, S, T
+    # from here on every exception is the implementation's: pseudoinverse() / set_target on a legal alignment must work
+    b = r.pseudoinverse()                                 # an alignment S -> other
+    if not np.array_equal(b.source.points, S.points):
+        LIFE["last"] = "fresh (pseudoinverse holds another source array)"
+        return a, S, T
+    b.set_target(T)
+    LIFE["last"] = "retargeted"
+    return b, S, T
 
 
 def _build_fresh(case):
@@ -1306,10 +1361,13 @@ def oracle_pwa(ctx, case, a, obs):
             # index_alpha_beta is public: the coordinates it reports reconstruct the point in the triangle it names
             tri_ = np.asarray(a.trilist)[ti]
             rec = Sp[tri_[0]] + ab[0] * (Sp[tri_[1]] - Sp[tri_[0]]) + ab[1] * (Sp[tri_[2]] - Sp[tri_[0]])
-            ctx.check(np.allclose(rec, p[0], rtol=0, atol=TOL * (1 + sc)) and ab[0] >= -1e-12 and ab[1] >= -1e-12 and ab[0] + ab[1] <= 1 + 1e-12,
-                      site + ".index_alpha_beta", "not-barycentric",
-                      "index_alpha_beta names triangle %r with (alpha, beta) = %r, which is not the point %r"
-                      % (tri_.tolist(), ab, pr["p"]), rp(case, probe=pr))
+            # the return convention of the public helper is not in the property text (the property observes apply /
+            # aligned_source / alignment_error / h_matrix): a disagreement is a broken tie, not an oracle failure
+            okb = bool(np.allclose(rec, p[0], rtol=0, atol=TOL * (1 + sc)) and ab[0] >= -1e-12 and ab[1] >= -1e-12 and ab[0] + ab[1] <= 1 + 1e-12)
+            ctx.count("pwa:index_alpha_beta-is-barycentric=%s" % okb)
+            if not okb:
+                ctx.mismatch("pwa", "index_alpha_beta names triangle %r with (alpha, beta) = %r, which is not the point %r"
+                             % (tri_.tolist(), ab, pr["p"]), rp(case, probe=pr))
         if pr["kind"] == "interior":
             want = sum(w * Tp[v] for w, v in zip(pr["w"], pr["tri"]))
             ctx.check(q is not None and np.allclose(q, want, rtol=0, atol=TOL * (1 + sc)), site + ".affine_in_triangle",
@@ -1340,8 +1398,9 @@ def oracle_pwa(ctx, case, a, obs):
                           "jump-across-edge", "approaching edge (%d,%d) from triangle %r the map does not tend to the "
                           "edge value" % (pr["u"], pr["v"], tri), rp(case, probe=pr))
         elif pr["kind"] == "outside":
-            ctx.check(q is None, site + ".domain", "outside-point-mapped", "a point outside every source triangle was mapped",
-                      rp(case, probe=pr))
+            # what happens OUTSIDE every source triangle is not in the property text (an extrapolating implementation
+            # would be correct): recorded; the model comparison reports a differing containment as a broken tie
+            ctx.count("pwa:outside-point:%s" % ("refused" if q is None else "mapped"))
     obs["probe_out"] = res
     obs["probe_ab"] = abs_
 
@@ -1504,7 +1563,7 @@ def run_case(ctx, case, cid, lines, pending):
     for flag in case.get("shape", []):
         ctx.count("shape:" + flag)
     if case.get("life"):
-        ctx.count("life:" + case["life"])
+        ctx.count("life-requested:" + case["life"])
     if case.get("first"):
         ctx.count("first-target-dtype:%s" % (case["first"]["dtype"] or "f64"))
     ctx.count("kind:" + case["kind"])
@@ -1533,6 +1592,8 @@ def run_case(ctx, case, cid, lines, pending):
     obs = {}
     try:
         a, S, T = build(case)
+        if LIFE["last"]:
+            ctx.count("life:" + LIFE["last"])       # the life the judged object really had
         oracle_common(ctx, case, a, S, T, obs)
         if cls == "tps":
             oracle_tps(ctx, case, a, obs)
@@ -2160,7 +2221,8 @@ def run(ctx):
     if ctx.broken_obligations:
         # the live classes no longer have the entry points the model is written for: audit what still builds and
         # let the oracle look for an input on which the difference shows
-        common.prepare_lean(ctx, PROP, IMPORTS[:1], [t for t in THEOREMS if ".GenProps." not in t])
+        common.prepare_lean(ctx, PROP, IMPORTS[:2], [t for t in THEOREMS if ".GenProps." not in t],
+                            targets=["MenpoModel.Props.C07", "MenpoModel.Props.C07Limits", "MenpoModel.Drive.C07"])
     else:
         common.prepare_lean(ctx, PROP, IMPORTS, THEOREMS, targets=TARGETS)
     ctx.trusted += ["np.linalg.svd contract (checked numerically per case against the model's exact correlation matrix)",
